@@ -430,11 +430,41 @@ pub fn observe(ctx: &Ctx, st: &mut Stats, job: &Job, idx: usize) {
     st.reach("emitted_masks", emitted as u64);
     st.reach("version_level", (v * 4 + exp.level) as u64);
     st.distinct(job.key(&cfg.input));
+    // Without the recorder (hook-less child builds) the candidates are reconstructed through the public API, and whether
+    // a candidate carries its format information WHILE IT IS SCORED is not observable there (nor pinned by the property:
+    // "tried on the same placed codewords"). The reconstruction above leaves the format modules light, as the pinned tree
+    // does; before anything is reported the other reading (format information present, as ISO prescribes) is judged too.
+    let mut min_ok = min_ok;
+    let mut kf_other_reading = false;
+    if !min_ok && !hook_used {
+        let mut with_format: Vec<Matrix> = Vec::new();
+        for m in 0..8 {
+            let mut c2 = cfg.clone();
+            c2.mask = Some(m);
+            if let Outcome::Ok(q) = adapter::build(&c2) {
+                with_format.push(adapter::matrix_of(&q));
+            }
+        }
+        if with_format.len() == 8 {
+            let t2: Vec<Terms> = with_format.iter().map(|c| penalty::terms(c, v)).collect();
+            let f2: Vec<u32> = t2.iter().map(|x| x.total_floor()).collect();
+            let e2: Vec<u32> = t2.iter().map(|x| x.total_exact()).collect();
+            let mn = |x: &Vec<u32>| (0..8).filter(|&i| x[i] == *x.iter().min().unwrap()).collect::<Vec<_>>();
+            if mn(&f2).contains(&emitted) || mn(&e2).contains(&emitted) {
+                min_ok = true;
+                st.count("emitted_mask_minimal_when_candidates_carry_their_format_information", 1);
+            } else {
+                let k2f: Vec<u32> = t2.iter().map(|x| x.without_columns() + x.dark_floor + ucr + ucw).collect();
+                let k2e: Vec<u32> = t2.iter().map(|x| x.without_columns() + x.dark_exact + ucr + ucw).collect();
+                kf_other_reading = mn(&k2f).contains(&emitted) || mn(&k2e).contains(&emitted);
+            }
+        }
+    }
     if min_ok {
         st.count("emitted_mask_minimal", 1);
     } else {
         // is this exactly the listed finding? emitted in argmin of "column terms frozen at the un-masked placement"
-        let is_kf = argmin(&k_floor).contains(&emitted) || argmin(&k_exact).contains(&emitted);
+        let is_kf = argmin(&k_floor).contains(&emitted) || argmin(&k_exact).contains(&emitted) || kf_other_reading;
         if is_kf {
             st.known(KF, KF_WHAT.to_string());
             st.count("emitted_mask_not_minimal_known_finding", 1);
